@@ -106,12 +106,14 @@ class Engine:
         self.caps = []
         self.assumptions = []
         self.local = None
+        self.worker_pids = set()
 
     # -- pool
     def _pool(self):
         if self.pool is None:
             ctx = mp.get_context("fork")
             self.pool = ctx.Pool(self.workers, initializer=_winit, initargs=(self.seed,))
+            self.worker_pids |= {p.pid for p in self.pool._pool}
         return self.pool
 
     def pmap(self, func, items, chunksize=None):
@@ -147,13 +149,20 @@ class Engine:
         self.shutdown_pool()
         if self.local is not None:
             self.local.close()
-        # workers cannot clean up after themselves
+        # workers cannot clean up after themselves: remove the scratch directories of this run's processes (and only
+        # those - another check may be running at the same time), plus leftovers of dead processes older than two hours
         base = sub.shm_base()
+        own = {str(os.getpid())} | {str(p) for p in self.worker_pids}
         for n in os.listdir(base):
             if n.startswith("mhlmc."):
                 pid = n.split(".")[1]
-                if not os.path.exists(f"/proc/{pid}") or pid == str(os.getpid()):
-                    sub.rm(os.path.join(base, n))
+                p = os.path.join(base, n)
+                try:
+                    stale = not os.path.exists(f"/proc/{pid}") and time.time() - os.path.getmtime(p) > 7200
+                except OSError:
+                    stale = False
+                if pid in own or stale:
+                    sub.rm(p)
 
     def shutdown_pool(self):
         if self.pool is not None:
